@@ -163,7 +163,7 @@ def run_case(ctx, kind, rng, idx):
     if rng.random() < 0.3:
         mx = float(np.max(C))
         if np.issubdtype(C.dtype, np.integer):
-            cand = [np.int32, np.uint32, np.uint64] + (
+            cand = ([np.int32, np.uint32] if mx < 2e9 else []) + [np.uint64] + (
                 [np.uint16, np.int16] if mx < 3e4 else [])
         else:
             cand = [np.float32]
